@@ -349,6 +349,27 @@ def make_oracle(name):
                 m2 = copy.deepcopy(model)
                 m2["block"]["header"]["time"] = (m2["block"]["header"]["time"] + 1) & 0xFFFFFFFF
                 obj, new = kwargs["block"], m2["block"]["header"]["time"]
+            if name == "version":
+                # an address-book entry updated after the handshake revealed the peer's services / a new port
+                m3 = copy.deepcopy(model)
+                m3["remote_address"]["services"] = (m3["remote_address"]["services"] + 1) & 0xFFFFFFFFFFFFFFFF
+                m3["remote_address"]["port"] = (m3["remote_address"]["port"] + 1) & 0xFFFF
+                kwargs["remote_address"].services = m3["remote_address"]["services"]
+                kwargs["remote_address"].port = m3["remote_address"]["port"]
+                again = net.message.pack(name, **kwargs)
+                if again != enc(m3):
+                    _bad("msg:version:repack-after-edit!=ref", "pack('version') after the remote address object's services / port were assigned "
+                         "does not encode the fields as they are now (%s)" % ("it repeats the earlier bytes" if again == packed else "other bytes"))
+            elif name == "addr" and model["date_address_tuples"]:
+                m3 = copy.deepcopy(model)
+                m3["date_address_tuples"][0][1]["port"] = (m3["date_address_tuples"][0][1]["port"] + 1) & 0xFFFF
+                m3["date_address_tuples"][0][1]["services"] = (m3["date_address_tuples"][0][1]["services"] ^ 1)
+                kwargs["date_address_tuples"][0][1].port = m3["date_address_tuples"][0][1]["port"]
+                kwargs["date_address_tuples"][0][1].services = m3["date_address_tuples"][0][1]["services"]
+                again = net.message.pack(name, **kwargs)
+                if again != enc(m3):
+                    _bad("msg:addr:repack-after-edit!=ref", "pack('addr') after the first address object's services / port were assigned does "
+                         "not encode the fields as they are now (%s)" % ("it repeats the earlier bytes" if again == packed else "other bytes"))
             if m2 is not None:
                 obj.timestamp = new
                 again = net.message.pack(name, **kwargs)
